@@ -755,6 +755,16 @@ func c15Patterns(e *core.Env, y int, viol func(string, string, any)) int64 {
 		ys[1:], "0" + ys, ys + " ", " " + ys, ys + "-1a", ys + "-Qx", ys + "-Wxx", ys + "-13-", "-" + ys, ys + "-W1 ", ys + "Q1", ys + "W01"} {
 		try(pat, false, 0, 0)
 	}
+	// digits of other scripts are not digits of a pattern: one digit of the year (or of the number) replaced by the
+	// fullwidth / Arabic-Indic / Devanagari digit of the same value, in otherwise valid patterns
+	foreign := func(text string, pos int) string {
+		d := rune(text[pos] - '0')
+		return text[:pos] + string([]rune{[]rune{0xFF10, 0x0660, 0x0966}[(y+pos)%3] + d}) + text[pos+1:]
+	}
+	fy := foreign(ys, y%4)
+	for _, pat := range []string{fy, fy + "-03", fy + "-Q2", fy + "-W10", fy + "-W7", foreign(ys+"-03", 6), foreign(ys+"-Q2", 6), foreign(ys+"-W10", 6), foreign(ys+"-W10", 7)} {
+		try(pat, false, 0, 0)
+	}
 	e.Count("patterns", n)
 	return n
 }
